@@ -392,9 +392,11 @@ def run_and_check_values(prog, facts, rng, ecalls, max_steps=2500):
         n = prog.nodes[pc]
         fr = m.frames[-1]
         entry = fr["entry"]
-        if n["kind"] == "FuncEntry":
-            entry = m.x           # the activation starts here
-        if contract_ok and pc in facts.n:
+        # A function-entry node is not an instruction: it stands for "an activation starts here",
+        # whichever way control arrived (its in-map is the meet over the jump / fall-through edges
+        # only - calls have no edge to it - and its out-map forgets all of it). Claims are judged at
+        # instructions.
+        if contract_ok and pc in facts.n and n["kind"] != "FuncEntry":
             f = facts.n[pc]
             for r, claim in f["ri"].items():
                 want = claim_value(prog, m, claim, entry)
